@@ -18,7 +18,7 @@ def dyadic(rng, lo=-64, hi=64, den_pow=3):
 
 def gen_case(rng, tier, profile=None):
     """a script: init + ops.  Times strictly increasing dyadics.  Profiles steer strata."""
-    profile = profile or rng.choice(["small-cap", "small-cap", "bounded", "true-cap", "scalar", "matrix", "f32", "complex", "int64"])
+    profile = profile or rng.choice(["small-cap", "small-cap", "bounded", "bounded-big", "true-cap", "scalar", "matrix", "f32", "complex", "int64"])
     shape = rng.choice([(1,), (2,), (3,), (5,)])
     dtype = "float64"
     init_cap = None      # None -> class default
@@ -30,6 +30,11 @@ def gen_case(rng, tier, profile=None):
     elif profile == "bounded":
         max_steps = rng.choice([1, 2, 3, 5, 8])
         n_updates = rng.randint(max(0, max_steps - 2), max_steps + 3)
+    elif profile == "bounded-big":
+        # a bound above the default capacity that is not capacity * factor^k: the bound itself must hold
+        max_steps = rng.choice([1025, 1030, 1500, 2049]) if tier == "thorough" or rng.random() < 0.5 else rng.choice([1025, 1100])
+        n_updates = max_steps + rng.randint(0, 3)
+        shape = rng.choice([(1,), (2,)])
     elif profile == "true-cap":
         n_updates = rng.choice([1022, 1023, 1024, 1025, 2047, 2048, 2050]) if tier == "thorough" or rng.random() < 0.5 else rng.choice([1023, 1024, 1030])
     elif profile == "scalar":
@@ -67,6 +72,7 @@ def gen_case(rng, tier, profile=None):
         ops.append(["q", q2s(gen_query_time(rng, times))])
     ops.append(["abs"])
     return {"profile": profile, "shape": list(shape), "dtype": dtype, "init_cap": init_cap, "max_steps": max_steps,
+            "mutate_y0": rng.random() < 0.5,       # the caller re-uses the array it passed as y0
             "t0": q2s(t0), "y0": [q2s(v) for v in y0], "ops": ops}
 
 
@@ -106,7 +112,10 @@ def run_impl(case):
         if v.dtype.kind == "c":
             v = np.stack([v.real.reshape(-1), v.imag.reshape(-1)], axis=1).reshape(-1)
         return [C.f2s(x) for x in np.asarray(v, dtype=np.float64).reshape(-1)]
-    h = cls(mk(case["y0"]), float(Fraction(case["t0"])), case["max_steps"])
+    y0 = mk(case["y0"])
+    h = cls(y0, float(Fraction(case["t0"])), case["max_steps"])
+    if case.get("mutate_y0") and y0.shape != ():
+        y0 += 1000
     out = []
     for op in case["ops"]:
         if op[0] == "u":
